@@ -579,3 +579,89 @@ mutual
 end
 
 end Pg.C05
+
+namespace Pg.C05
+
+/-! ### `to_json` options: `hide_frozen` (default True) and `hide_default_values` (default False)
+(dict.py:836-860; the options travel to every descendant through `**kwargs`) -/
+
+structure JOpts where
+  hideFrozen : Bool
+  hideDefault : Bool
+  deriving DecidableEq, Repr, Inhabited
+
+def JOpts.default : JOpts := ⟨true, false⟩
+
+def findField (k : Str) : List Field → Option Field
+  | [] => none
+  | f :: fs => if f.name = k then some f else findField k fs
+
+/-- Is attribute `k = x` left out of the JSON? MISSING always; a frozen field under `hide_frozen`;
+a value equal to the field's default under `hide_default_values`. -/
+def hiddenAttr (o : JOpts) (fs : List Field) (k : Str) (x : Tree) : Bool :=
+  isMissing x ||
+    match findField k fs with
+    | some f =>
+      (o.hideFrozen && f.frozen) ||
+        (o.hideDefault && match f.default with
+          | some d => Tree.beq x d
+          | none => false)
+    | none => false
+
+def ClassEnv.fieldsOf (env : ClassEnv) (c : Str) : List Field := (env.find c).getD []
+
+mutual
+  def toJsonO (o : JOpts) (env : ClassEnv) : Tree → JV
+    | .leaf a => atomJ a
+    | .list xs => .arr (toJsonOL o env xs)
+    | .tuple xs => .arr (.str tupleMarker :: toJsonOL o env xs)
+    | .dict kvs => .obj (toJsonOKV o env kvs)
+    | .obj c attrs => .obj ((.s typeKey, .str c) :: toJsonOA o env (env.fieldsOf c) attrs)
+  def toJsonOL (o : JOpts) (env : ClassEnv) : List Tree → List JV
+    | [] => []
+    | x :: xs => toJsonO o env x :: toJsonOL o env xs
+  def toJsonOKV (o : JOpts) (env : ClassEnv) : List (Key × Tree) → List (Key × JV)
+    | [] => []
+    | (k, x) :: xs => (k, toJsonO o env x) :: toJsonOKV o env xs
+  def toJsonOA (o : JOpts) (env : ClassEnv) (fs : List Field) : List (Str × Tree) → List (Key × JV)
+    | [] => []
+    | (k, x) :: xs =>
+      if hiddenAttr o fs k x then toJsonOA o env fs xs
+      else (.s k, toJsonO o env x) :: toJsonOA o env fs xs
+end
+
+end Pg.C05
+
+namespace Pg.C05
+
+/-! ### `auto_dict=True` (json_conversion.py:545-549): a dict whose `_type` names no loadable class
+stays a dict, with `_type` renamed to `type_name` -/
+
+def typeNameKey : Str := "type_name".toList
+
+mutual
+  def autoDict (env : ClassEnv) : JV → JV
+    | .arr xs => .arr (autoDictL env xs)
+    | .obj kvs =>
+      match jlookup (.s typeKey) kvs with
+      | some (.str c) =>
+        if (env.find c).isSome then .obj (autoDictKV env kvs)
+        else
+          -- `v['type_name'] = type_name; v.pop('_type')`, then the children are visited
+          .obj (dsetK (.s typeNameKey) (.str c) ((autoDictKV env kvs).filter (fun p => p.1 != .s typeKey)))
+      | some _ => .obj kvs                       -- `_type` not a string: skipped with its children
+      | none => .obj (autoDictKV env kvs)
+    | j => j
+  def autoDictL (env : ClassEnv) : List JV → List JV
+    | [] => []
+    | x :: xs => autoDict env x :: autoDictL env xs
+  def autoDictKV (env : ClassEnv) : List (Key × JV) → List (Key × JV)
+    | [] => []
+    | (k, x) :: xs => (k, autoDict env x) :: autoDictKV env xs
+end
+
+/-- `pg.from_json(j, allow_partial=ap, auto_dict=True)`. -/
+def fromJsonAuto (env : ClassEnv) (ap : Bool) (j : JV) : Except Err Tree :=
+  fromJ env ap (autoDict env j)
+
+end Pg.C05
